@@ -142,7 +142,7 @@ Definition step (s : st) (o : op) : option st :=
   | Checkout b =>
     Some {| s_on_other := b; s_main := s_main s; s_other := s_other s; s_stashes := s_stashes s; s_commits := s_commits s |}
   | CheckoutMove b =>
-    if Bool.eqb b (s_on_other s) then None                       (* already on branch *)
+    if Bool.eqb b (s_on_other s) then Some s                     (* already on that branch: nothing to do *)
     else let dst := if b then s_other s else s_main s in
          match do_move w dst with
          | Some (src', dst') =>
